@@ -226,10 +226,12 @@ Theorem tx2g_negative_refuted :
 Proof. exists [(10, 20); (30, 40)], (-1), 9. vm_compute. repeat split; auto. Qed.
 Print Assumptions tx2g_negative_refuted.
 
-(* abutting exons (no intronic base between them) are outside `wf`: on the plus strand the first
-   base of the second exon is rejected as intronic although it is exonic; the minus arm accepts it *)
+(* book-ended exons (no intronic base between them) are outside `wf`.  BEFORE fix c35675e the plus arm
+   (g2tx_plus_old) rejected the first base of the second exon as intronic although it is exonic; the
+   repaired arm and the minus arm map it (was finding C11-bookend-plus) *)
 Theorem g2tx_abutting_refuted :
-  exists ex g, wf ex = false /\ exonic ex g = true /\ g2tx 1 ex g = Err EIntron /\ g2tx (-1) ex g = Ok 9.
+  exists ex g, wf ex = false /\ exonic ex g = true /\ g2tx_plus_old ex g 0 = Err EIntron /\
+               g2tx 1 ex g = Ok 10 /\ tx2g 1 ex 10 = Ok g /\ g2tx (-1) ex g = Ok 9.
 Proof. exists [(10, 20); (20, 30)], 20. vm_compute. repeat split; auto. Qed.
 Print Assumptions g2tx_abutting_refuted.
 
@@ -312,16 +314,13 @@ Theorem code_gtf_iterate_pointer_is_model : forall lines, Forall (fun l => fst l
 Proof. exact code_gtf_iterate_pointer_is_model_l. Qed.
 Print Assumptions code_gtf_iterate_pointer_is_model.
 
-(* the proposed repair of finding C11-bookend-plus changes nothing on well-separated exon lists (inside the
-   range test of get_transcript_index) and maps the shared boundary of two book-ended exons correctly *)
+(* the repair of finding C11-bookend-plus (fix c35675e; Anno.g2tx_plus is the repaired arm, g2tx_plus_old
+   the arm as written before) changed nothing on well-separated exon lists inside the range test of
+   get_transcript_index: every theorem above held for the old arm too *)
 Theorem bookend_fix_equiv : forall ex lo g acc, wf_from lo ex = true -> ex <> [] -> g < last_end ex ->
-  g2tx_plus_fixed ex g acc = g2tx_plus ex g acc.
+  g2tx_plus ex g acc = g2tx_plus_old ex g acc.
 Proof. exact bookend_fix_equiv_l. Qed.
 Print Assumptions bookend_fix_equiv.
-
-Example bookend_fixed_example :
-  g2tx_plus_fixed [(10, 20); (20, 30)] 20 0 = Ok 10 /\ g2tx_plus [(10, 20); (20, 30)] 20 0 = Err EIntron.
-Proof. vm_compute. split; reflexivity. Qed.
 
 (* ---- get_cdna_sequence: body tied to the model (py2coq target 24; Gen/Py_TAM_cdna.v is regenerated
         from the source text on every run) ---- *)
